@@ -132,7 +132,8 @@ def frame_concat(ctx: Ctx) -> None:
         t = lp.target.id
         first = lp.body[0]
         # if len(t.<axis>) != len(<axis>) or (t.<axis> != <axis>).any():  t = t.reindex(<axis>=<axis>, fill_value=fill_value)
-        want_atoms = {f'len({t}.{axis_kw}) != len({axis_kw})', f'({t}.{axis_kw} != {axis_kw}).any()'}
+        from sfa.model import canon_text
+        want_atoms = {canon_text(f'len({t}.{axis_kw}) != len({axis_kw})'), canon_text(f'({t}.{axis_kw} != {axis_kw}).any()')}
         good = isinstance(first, ast.If) and isinstance(first.test, ast.BoolOp) and isinstance(first.test.op, ast.Or) \
             and {norm(v) for v in first.test.values} == want_atoms and not first.orelse
         if good:
